@@ -167,6 +167,30 @@ def run_cases(lines, scratch, runner_bin=RUNNER_BIN, tag='s'):
     return outs, verdicts, summ
 
 
+def run_cases_panic_only(lines, scratch, runner_bin, tag):
+    """C15: execute the cases, collect PANIC lines (no judging of values); returns (outfiles, panic_verdicts, counter)"""
+    n = len(lines); nsh = max(1, min(NPROC, n // 200 + 1)); procs = []
+    for i in range(nsh):
+        pth = os.path.join(scratch, '%s.cases.%d' % (tag, i)); o = pth.replace('.cases.', '.out.')
+        with open(pth, 'w') as f: f.write('\n'.join(lines[i::nsh])); f.write('\n')
+        procs.append((subprocess.Popen('timeout 3000 %s < %s > %s 2> %s.err' % (runner_bin, pth, o, o), shell=True), pth, o))
+    verdicts = []; summ = collections.Counter(); outs = []
+    for pr, pth, o in procs:
+        rc = pr.wait(); outs.append(o)
+        nin = sum(1 for l in open(pth) if l.strip()); nout = 0
+        for l in open(o, errors='replace'):
+            l = l.rstrip('\n')
+            if not l: continue
+            nout += 1; summ['total'] += 1
+            if ' => PANIC' in l:
+                summ['panic'] += 1; verdicts.append('PANIC 0 %s || expected: no panic' % l)
+            elif ' => BADUTF8' in l: summ['badinput'] += 1
+            else: summ['ok'] += 1
+        if rc != 0 or nout != nin:
+            verdicts.append('BROKEN 0 shard %s: runner exit status %s, %d of %d cases answered (abort / crash?): %s' % (o, rc, nout, nin, open(o + '.err', errors='replace').read()[-400:]))
+    return outs, verdicts, summ
+
+
 def parse_verdict(v):
     """'REJECT n <case> => <out> || expected: ...' -> dict"""
     kind, _, rest = v.partition(' ')
@@ -324,6 +348,11 @@ def run_check(pid, tier, seed):
     checker_cmds.append('RUSTFLAGS="--cfg decmathlib_rs_verif" cargo build --offline (harness, path dep on /repo)')
     harness_ok = rc == 0
     obligations.append(('harness builds against /repo', harness_ok, '' if harness_ok else out[-2000:]))
+    release_ok = False
+    if spec.get('panic_only'):
+        rc, out = build_harness('release')
+        release_ok = rc == 0
+        obligations.append(('harness builds against /repo (release profile: debug assertions off)', release_ok, '' if release_ok else out[-2000:]))
     rc, out = build_coq()
     coq_ok = rc == 0
     checker_cmds.append('coq_makefile -f _CoqProject -o Makefile && make -j%d (full .vo build)' % NPROC)
@@ -337,6 +366,19 @@ def run_check(pid, tier, seed):
     checker_cmds.append(cmd)
     obligations.append(('props/%s.v: %d theorems + Print Assumptions allow-list + forbidden-vernacular scan' % (pid, nthm), not problems, '; '.join(problems)))
     n_obl_thm = max(nthm, 1)
+
+    # 2b. API registry (C15 and operator clauses): the harness dispatch covers exactly the public entry points of the current source
+    if spec.get('api_registry') and harness_ok:
+        import apiscan, apimap
+        names, unknown = apiscan.scan()
+        rc_, out_ = sh(RUNNER_BIN + ' api')
+        hops = set(out_.split())
+        missing = sorted(set(names) - set(apimap.API_TO_OPS)); stale = sorted(set(apimap.API_TO_OPS) - set(names))
+        nodisp = sorted(o for v in apimap.API_TO_OPS.values() for o in v if o.split(':')[0] not in hops)
+        ok_ = not (missing or stale or nodisp or unknown)
+        obligations.append(('API registry: %d public entry points of src/d128.rs + serde.rs, each mapped to a harness operation' % len(names), ok_,
+                            'entry points without a harness operation: %s; mapped but no longer in the source: %s; mapped to an operation the runner lacks: %s; unclassified items: %s' % (missing, stale, nodisp, unknown) if not ok_ else ''))
+        checker_cmds.append('lib/apiscan.py (scan of /repo/src/d128.rs, serde.rs) vs lib/apimap.py vs `verif-harness api`')
 
     # 3. table obligations (regenerated from the compiled crate)
     table_results = []
@@ -358,7 +400,13 @@ def run_check(pid, tier, seed):
             rng = random.Random(rng_master.getrandbits(64))
             ts = time.time()
             lines = list(genf(rng, n))
-            outs, verdicts, s = run_cases(lines, scratch, tag=sname)
+            if spec.get('panic_only'):
+                outs, verdicts, s = run_cases_panic_only(lines, scratch, RUNNER_BIN, sname)
+                if release_ok:
+                    o2, v2, s2 = run_cases_panic_only(lines, scratch, RUNNER_BIN.replace('/debug/', '/release/'), sname + '_rel')
+                    verdicts += v2; s.update(s2)
+            else:
+                outs, verdicts, s = run_cases(lines, scratch, tag=sname)
             summ.update(s)
             evaluations += s['total']
             streams_info.append(dict(stream=sname, cases=len(lines), ok=s['ok'], reject=s['reject'], panic=s['panic'], unknown=s['unknown'], known_class=s['known'], secs=round(time.time() - ts, 1)))
